@@ -1,4 +1,84 @@
-// slice `spawn_vehicle`: Schedule::spawn_vehicle_for_path (C01 type guard, C13, C09, C10), verbatim body
+// slice `spawn_vehicle`: Schedule::spawn_vehicle_for_path and Schedule::add_suitable_start_and_end_depot_to_path
+// (solution/src/schedule/modifications.rs), verbatim bodies; the bookkeeping callees are stubs with the contract text
+// of the slices that verify them.
+//   C01 / C10  "a vehicle only serves service trips of the vehicle's type": Err if some node of the path is not
+//        compatible with the type; on Ok every node of the new vehicle's tour is compatible (discharges the A-type
+//        assumption of C01 for the spawn path).
+//   C13  "documented effect and nothing else": on Ok((r, id)), Schedule::spawned / listed (env/spawn_vehicle_shim.vs):
+//        id == VehicleIdx::Vehicle(self.vehicle_counter) is fresh (no vehicle, tour, dummy tour under it);
+//        r.vehicles == self.vehicles + {id -> vehicle of the type, stored under its id};
+//        r.tours == self.tours + {id -> tour}, a valid real tour of the network with exact caches whose nodes are the result
+//        of add_suitable_start_and_end_depot_to_path(path) (depots_added: the given nodes in order with a depot in front /
+//        behind if the path does not start / end with one; or, if the given start depot cannot spawn, the path with its first
+//        and last node replaced); dummy tours, their listing, the network untouched; vehicle_counter + 1; the type's id list
+//        gains exactly id (ids_gain) and stays sorted, the lists of the other types are untouched; if the listings matched
+//        the vehicles (listings_match) they still do.
+//   C13  formations: exactly the postcondition of update_train_formation(None, Some(vehicle), tour nodes) (formations_follow:
+//        formations elsewhere untouched, the vehicle at the tail of every activity's formation, within limits, unserved
+//        passengers change by the exact difference).
+//   C09  r.costs == self.costs + tour.costs; depot usage exact for the new vehicle, unchanged for all others, hence exact
+//        (usage_exact) for r; maintenance violation / rotation cycles: the postcondition of
+//        update_transitions_and_violation_fast (transitions_follow; other types' transitions untouched).
+//
+// ASSUMPTIONS introduced / used by this slice:
+//   A-stub   not verified in any slice, contract written from the body:
+//            Schedule::find_best_start_depot_for_spawning  (result is a member of network.start_depot_nodes),
+//            Schedule::find_best_end_depot_for_despawning  (Ok result is a member of network.end_depot_nodes),
+//            Schedule::can_depot_spawn_vehicle (NO contract: its result only selects the branch),
+//            VehicleTypes::get (= lookup in `vehicle_types`; contract text of env/limits_fns.vs)
+//   A-iter   Tour::all_nodes_iter yields the tour's nodes in order (stub returning SeqIter; text as in slices/json_writer.vs);
+//            env/seqiter.vs (`viter`, `any`), R5 on `path_as_vec.iter()`
+//   R7a stubs (verified elsewhere with the SAME contract text, hashes checked): Tour::new (tour_ctor),
+//            Schedule::update_train_formation (train_formation_update; R12: `moved_nodes` retyped to SeqIter<NodeIdx>),
+//            Schedule::update_depot_usage (depot_usage), Schedule::update_transitions_and_violation_fast (sched_guard);
+//            env/time_ops.vs, env/model_fns.vs, env/dist_ops.vs included trusted (slices time / network / tour_ctor)
+//   A-im     env/im_shim.vs (im::HashMap new / get / insert / clone), env/schedule_shim.vs (opaque im::HashSet + clone), and NEW in
+//            env/spawn_vehicle_shim.vs: `map[&k]` / `map[&k] = ..` of im::HashMap (Index: panics unless the key is present,
+//            yields the stored value; IndexMut: a reference INTO the map -- the final map is the old one with the key bound
+//            to the final value of the reference)
+//   A-std7   <[T]>::binary_search (result as documented by std on a slice sorted w.r.t. Ord), Result::unwrap_or_else
+//            (text as in env/remove_segment_shim.vs)
+//   A-std8   std::mem::replace (NEW: *dest becomes src, the old value is returned)
+//   A-derive derived PartialOrd / Ord of VehicleIdx (variant order, then index), derived Clone of Vehicle and of
+//            TransitionCycle are structural; vstd: Arc::clone, Vec::{first, last, insert, push, index, index_mut, clone}
+//   A-fmt    Display of VehicleTypeIdx and `{:?}` of Vec<NodeIdx> have no precondition (axiom_vec_node_idx_debug; the
+//            impls are no-ops outside verus!)
+//   plus env/broadcast_model.vs (key model of the index types).
+//
+// PRECONDITIONS the caller must guarantee (Schedule::sv_ok etc., env/spawn_vehicle_shim.vs, each explained there):
+//   * instance validity: Network::wf; depot_lists_ok (A-index: the network's start / end depot node lists and the overflow
+//     depot's nodes are nodes of the network -- how Network::new fills them); every service trip's type is a vehicle type
+//     of the network (clause of sv_formations_ok);
+//   * type_known(vehicle_type_idx) (C10): a vehicle type of the network stored under its own index, one of the listed
+//     types (ids_sorted), with an id list in vehicle_ids_grouped_and_sorted (`[&vehicle_type_idx]` panics otherwise);
+//   * sv_ids_ok (C10): real vehicles are stored under their own id, of the Vehicle kind with index < vehicle_counter, and
+//     have a tour; dummy tours sit under Dummy ids; every type's id list is sorted (binary_search is meaningless otherwise);
+//   * sv_formations_ok (C10 / C09): every activity of the network has a formation entry; magnitudes (at most 2^17 vehicles
+//     per formation; the u32 capacity / seat sums still fit with one more vehicle of any type); C09 for the unserved
+//     passengers in the form the u32 subtraction needs: the cached pair covers the contribution of any duplicate-free list of
+//     nodes (it is the sum over ALL service trips);
+//   * transitions_ok (C15 / C10 / C09): one transition per listed type, consistent with the tours, holding exactly the
+//     type's vehicles; maintenance_violation is their sum; fewer than 2^17 vehicles;
+//   * usage_exact (C09): the depot usage table has its from-scratch value;
+//   * costs <= 2^61 (C09 magnitude: `costs += tour.costs()` in u64);
+//   * the path is not empty (`nodes.first().unwrap()`), its nodes are nodes of the network, A-len (tour_len_ok);
+//   * A-idwidth: vehicle_counter <= 0xffff (`self.vehicle_counter as Idx`);
+//   * A-counter: spawn_counter_ok (the uninterpreted maintenance counter of the new tour is within +-2^40).
+//
+// NOT covered:
+//   * on Err nothing is claimed except the type guard; WHEN the result is Ok is not characterised (it is Ok iff the guard
+//     passes, an end depot exists, Tour::new accepts the nodes and every formation has room: follows from the callee
+//     contracts but is not stated); the error messages;
+//   * WHICH depot is put at the ends (nearest / available / overflow) -- only that it is a depot node list member of the
+//     network; panics inside the stubs (`expect("There should be at least the overflow depot available.")`);
+//   * that the result satisfies sv_ok again (invariant preservation) beyond what the postconditions state (usage_exact,
+//     sorted / matching listings, transitions consistent with the new tours); that the callers establish the preconditions;
+//   * FINDING (documented by the contract, not a failing obligation): if the path starts with a depot that cannot spawn the
+//     vehicle, add_suitable_start_and_end_depot_to_path overwrites the FIRST AND THE LAST node with the overflow depot's
+//     nodes whatever the last node is (`std::mem::replace(&mut nodes[tour_len - 1], ..)`): a path
+//     [full start depot, trip a, trip b] becomes [overflow start, trip a, overflow end] and trip b is silently dropped.
+//     Hence `activities_kept` is only claimed for paths with ends_alike (start depot ==> end depot).  All in-tree callers
+//     pass paths without depots or complete tours.
 #![feature(allocator_api)]
 use vstd::prelude::*;
 use std::ops::Add;
@@ -265,6 +345,10 @@ impl Clone for TransitionCycle {
         r is Ok ==> all_compatible(&self.network, r->Ok_0.0.tours@[r->Ok_0.1].nodes@, vehicle_type_idx), // @obl C01.spawn_vehicle.only_compatible_nodes
         // C13 "documented effect and nothing else"
         r is Ok ==> self.spawned(vehicle_type_idx, path_as_vec@, &r->Ok_0.0, r->Ok_0.1), // @obl C13.spawn_vehicle.adds_exactly_one_vehicle_with_the_given_path
+        // ... no activity of the path is lost, unless the path starts with a depot and ends with an activity (see "NOT
+        // covered / finding" in the header)
+        r is Ok && ends_alike(&self.network, path_as_vec@)
+            ==> activities_kept(&self.network, path_as_vec@, r->Ok_0.0.tours@[r->Ok_0.1].nodes@), // @obl C13.spawn_vehicle.adds_exactly_one_vehicle_with_the_given_path
         r is Ok ==> self.listed(vehicle_type_idx, &r->Ok_0.0, r->Ok_0.1), // @obl C13.spawn_vehicle.adds_exactly_one_vehicle_with_the_given_path
         // C10 "listings sorted and match": if every type's id list held exactly the vehicles of the type, it still does
         r is Ok && self.listings_match() ==> r->Ok_0.0.listings_match(), // @obl C10.spawn_vehicle.listings_still_match
@@ -301,6 +385,7 @@ impl Clone for TransitionCycle {
             assert forall|i: int| 0 <= i < path.len() implies self.network.sp_compatible(#[trigger] path[i], vehicle_type_idx) by {} // @obl C01.spawn_vehicle.only_compatible_nodes
             assert(tour_of_net(&self.network, &nt));
             lemma_tour_compatible(&self.network, path, &nt, vehicle_type_idx); // @obl C01.spawn_vehicle.only_compatible_nodes
+            if ends_alike(&self.network, path) { lemma_activities_kept(&self.network, path, nt.nodes@); } // @obl C13.spawn_vehicle.adds_exactly_one_vehicle_with_the_given_path
             // what the bookkeeping steps need
             lemma_tfu_pre(self, vehicle_type_idx, vh, &nt);
             lemma_cost_bounds(&self.network, nt.nodes@);
